@@ -394,6 +394,12 @@ func (fr *Frame) callEffects(cc *ssa.CallCommon, eff *effects, depth int) {
 		return
 	}
 	eff.alloc = true
+	if m, _, _ := fr.R.Eng.lockOpOf(cc); m != nil {
+		for _, comp := range fr.R.protectedComps(fr, m) {
+			eff.comps[comp] = true
+		}
+		return
+	}
 	if cc.IsInvoke() {
 		key := "(" + types.TypeString(cc.Value.Type(), nil) + ")." + cc.Method.Name()
 		c := fr.R.Eng.DB.Contracts[key]
@@ -614,6 +620,9 @@ func (fr *Frame) targetComps(e Expr, vars map[string]types.Type, pkgPath string)
 		case "chanState":
 			fr.R.Heap.register(chanClosedComp, ArraySort(SInt, SBool))
 			return []string{chanClosedComp}, true
+		case "ghostOf", "ghosts":
+			fr.R.Heap.register(ghostComp(e.Args[0]), ArraySort(SInt, SBool))
+			return []string{ghostComp(e.Args[0])}, true
 		case "reach":
 			xt := fr.staticType(e.Args[0], vars)
 			if xt != nil {
